@@ -341,6 +341,20 @@ fn describe(input: &[u8]) -> Vec<String> {
 
 fn main_check(ctx: &Ctx) -> Outcome {
     let mut out = Outcome::default();
+    // the functions under test must not consult the environment: a few representative inputs under a cleared and two
+    // hostile settings of the colour-related variables (before any worker thread exists)
+    fn env_digest() -> Vec<String> {
+        ["\x1b[0;31;44mtest", "\x1b[0mplain", "\x1b[0;1ma\x1b[0;3;92mb", "\x1b[0m.x\n'y\\z-w", "\x1b[0;7;35;46mq r"].iter().map(|t| anstyle_roff::to_roff(t).to_roff()).collect::<Vec<String>>()
+    }
+    if let Err(m) = vexplore::util::env_independence(env_digest) {
+        out.findings.push(Finding {
+            system: "anstyle_roff::to_roff".into(),
+            clause: "environment-dependence".into(),
+            case: vec!["representative inputs".into()],
+            message: m.chars().take(900).collect(),
+            replay: serde_json::json!({"kind":"env"}),
+        });
+    }
     let quick = ctx.quick();
     let acc = Acc { evals: AtomicU64::new(0), distinct: Default::default(), viol: Default::default(), clause_counts: Default::default() };
 
@@ -470,6 +484,7 @@ fn replay(v: &serde_json::Value) -> Result<(), String> {
             let input = unhex(v["input"].as_str().ok_or("replay without input")?);
             run_case(&input).0.map_err(|(c, m)| format!("{c}: {m}"))
         }
+        "env" => Err("environment-dependence findings are replayed by re-running the check".into()),
         k => Err(format!("unknown replay kind {k}")),
     }
 }
